@@ -38,8 +38,16 @@ import (
 
 type usr struct{ T, ID, R string }
 
+// obj is the object part of the user: "type:id", or the bare id of an untyped user
+func (u usr) obj() string {
+	if u.T == "" {
+		return u.ID
+	}
+	return u.T + ":" + u.ID
+}
+
 func (u usr) String() string {
-	s := u.T + ":" + u.ID
+	s := u.obj()
 	if u.R != "" {
 		s += "#" + u.R
 	}
@@ -150,24 +158,6 @@ func (r result) enc() rec.V {
 	return rec.L(rec.I(r.status), rec.L(out...))
 }
 
-func drain(it storage.TupleIterator, err error) result {
-	if err != nil {
-		return result{status: 9}
-	}
-	defer it.Stop()
-	var res result
-	for {
-		t, err := it.Next(context.Background())
-		if err != nil {
-			if errors.Is(err, storage.ErrIteratorDone) {
-				return res
-			}
-			return result{status: 9}
-		}
-		res.tuples = append(res.tuples, fromProto(t))
-	}
-}
-
 // ---- filters ---------------------------------------------------------------------------------
 
 type ofilter struct {
@@ -267,8 +257,10 @@ type restrList struct {
 }
 
 type oidSet struct {
-	isNil bool
-	ids   []string
+	isNil   bool
+	ids     []string
+	big     bool     // a large set: the record carries `reduced` and the size
+	reduced []string // members that are stored object ids (or one non-stored member)
 }
 
 // ---- universe of one history ------------------------------------------------------------------
@@ -293,9 +285,32 @@ func pickDistinct(r *rec.Rand, pool []string, n int) []string {
 	return p[:n]
 }
 
-func newUniverse(r *rec.Rand, plain bool) universe {
+// prefix-related names: one name is a strict prefix of another in every name-like field
+var prefTypes = [][2]string{{"doc", "doc-ext"}, {"doc", "document"}, {"d", "doc"}, {"folder", "folder2"}}
+var prefIDs = [][3]string{{"1", "10", "100"}, {"a", "ab", "a|b"}, {"x", "x1", "x-"}, {"ob", "obj", "o"}}
+var prefRels = [][2]string{{"viewer", "viewer2"}, {"view", "viewer"}, {"p", "parent"}, {"can_view", "can_view_all"}}
+var prefConds = [][2]string{{"c1", "c11"}, {"c", "c1"}, {"cond", "cond_a"}}
+
+// kind 0: the plain / pooled universes (the draws of these must never change: corpus entries name
+// histories by seed); kind 1: prefix-related names, extra user types, untyped users
+func newUniverse(r *rec.Rand, plain bool, kind int) universe {
 	var u universe
-	if plain {
+	if kind == 1 {
+		u.otypes = rec.Pick(r, prefTypes)
+		u.oids = rec.Pick(r, prefIDs)
+		u.rels = rec.Pick(r, prefRels)
+		cs := rec.Pick(r, prefConds)
+		u.conds = [3]string{"", cs[0], cs[1]}
+		if r.Bool() {
+			u.otypes[0], u.otypes[1] = u.otypes[1], u.otypes[0]
+		}
+		if r.Bool() {
+			u.rels[0], u.rels[1] = u.rels[1], u.rels[0]
+		}
+		if r.Bool() {
+			u.conds[1], u.conds[2] = u.conds[2], u.conds[1]
+		}
+	} else if plain {
 		u.otypes = [2]string{"doc", "folder"}
 		u.oids = [3]string{"1", "2", "3"}
 		u.rels = [2]string{"viewer", "parent"}
@@ -315,6 +330,13 @@ func newUniverse(r *rec.Rand, plain bool) universe {
 		{g, a, ""}, {g, b, ""}, {g, "*", ""},
 		{g, a, "member"}, {g, b, "member"}, {g, a, "admin"},
 		{u.otypes[1], a, ""}, {u.otypes[1], a, u.rels[0]}, {u.otypes[0], a, u.rels[0]},
+	}
+	if kind == 1 {
+		// indices 12..: types of which "user" / "group" are strict prefixes, and untyped users
+		u.users = append(u.users,
+			usr{"user2", "a", ""}, usr{"user2", "*", ""}, usr{"userset_admin", a, "member"},
+			usr{"groupadmin", a, "member"}, usr{"groupadmin", a, ""}, usr{"", "users-legacy", ""},
+			usr{"", "group", ""}, usr{"use", "a", ""})
 	}
 	return u
 }
@@ -362,9 +384,9 @@ func tkOf(t tup, emptyCtxAsStruct bool) *openfgav1.TupleKey {
 	return tk
 }
 
-func runHistory(w *rec.Writer, b backends, hseed uint64, plain bool) (*history, bool) {
+func runHistory(w *rec.Writer, b backends, hseed uint64, plain bool, kind int) (*history, bool) {
 	r := rec.NewRand(hseed)
-	h := &history{u: newUniverse(r, plain), id: ulid.Make().String()}
+	h := &history{u: newUniverse(r, plain, kind), id: ulid.Make().String()}
 	ctx := context.Background()
 	have := map[string]int{}
 	rebuild := func() {
@@ -471,7 +493,7 @@ func runHistory(w *rec.Writer, b backends, hseed uint64, plain bool) (*history, 
 		w.Stat("hist_write_calls", 1)
 		if errM != nil || errS != nil {
 			// every generated call is valid: a refusal is a divergence of its own
-			w.PropFail("a valid Write call was refused", map[string]any{"h": hseed, "plain": plain, "call": c,
+			w.PropFail("a valid Write call was refused", map[string]any{"h": hseed, "plain": plain, "u": kind, "call": c,
 				"memory": fmt.Sprint(errM), "sqlite": fmt.Sprint(errS)})
 			return h, false
 		}
@@ -487,7 +509,7 @@ func runHistory(w *rec.Writer, b backends, hseed uint64, plain bool) (*history, 
 				e2 := b.sql.Write(ctx, h.id, nil, bad)
 				w.Stat("hist_refused_calls", 1)
 				if e1 == nil || e2 == nil {
-					w.PropFail("a duplicate insert was accepted", map[string]any{"h": hseed, "plain": plain, "call": c,
+					w.PropFail("a duplicate insert was accepted", map[string]any{"h": hseed, "plain": plain, "u": kind, "call": c,
 						"memory": fmt.Sprint(e1), "sqlite": fmt.Sprint(e2)})
 					return h, false
 				}
@@ -505,6 +527,7 @@ type emitter struct {
 	h      *history
 	hseed  uint64
 	plain  bool
+	kind   int
 	want   map[string]bool // replay: the (op,i) pairs requested; nil = all
 	storeV rec.V
 	idx    map[string]int
@@ -519,8 +542,12 @@ func (e *emitter) wanted(op string) (int, bool) {
 	return i, e.want[fmt.Sprintf("%s/%d", op, i)]
 }
 
+func (e *emitter) desc(op string, i int) map[string]any {
+	return map[string]any{"h": e.hseed, "plain": e.plain, "u": e.kind, "op": op, "i": i}
+}
+
 func (e *emitter) emit(op string, i int, opcode int, oc bool, extra map[string]any, filter rec.V, rm, rs result) {
-	desc := map[string]any{"h": e.hseed, "plain": e.plain, "op": op, "i": i}
+	desc := e.desc(op, i)
 	for k, v := range extra {
 		desc[k] = v
 	}
@@ -534,6 +561,81 @@ func (e *emitter) emit(op string, i int, opcode int, oc bool, extra map[string]a
 		e.w.Stat(op+"_nonempty", 1)
 	}
 	e.w.Case(desc, rec.I(opcode), rec.I(ocv), e.storeV, filter, rm.enc(), rs.enc())
+}
+
+// consume drains an iterator.  Two calls out of three follow a Head/Next schedule derived from
+// (history seed, op, index): before every Next, 0..2 Head peeks.  Each Head must hand out exactly
+// the tuple (condition name and context included) that the following Next hands out, and
+// ErrIteratorDone exactly when the following Next does; the Next sequence is the recorded result.
+func (e *emitter) consume(backend, op string, i int, it storage.TupleIterator, err error) result {
+	if err != nil {
+		return result{status: 9}
+	}
+	defer it.Stop()
+	var sched *rec.Rand
+	if i%3 != 0 {
+		sched = rec.NewRand(e.hseed ^ (uint64(i+1) * 0x9e3779b97f4a7c15) ^ uint64(len(op))<<56)
+	}
+	ctx := context.Background()
+	var res result
+	fail := func(what string, extra map[string]any) {
+		d := e.desc(op, i)
+		d["backend"] = backend
+		for k, v := range extra {
+			d[k] = v
+		}
+		e.w.PropFail(what, d)
+	}
+	for step := 0; ; step++ {
+		var heads []*tup
+		headDone := 0
+		if sched != nil {
+			for k := sched.Intn(3); k > 0; k-- {
+				e.w.Stat("iter_head_calls", 1)
+				t, herr := it.Head(ctx)
+				if herr != nil {
+					if !errors.Is(herr, storage.ErrIteratorDone) {
+						return result{status: 9}
+					}
+					headDone++
+					continue
+				}
+				x := fromProto(t)
+				heads = append(heads, &x)
+			}
+		}
+		t, nerr := it.Next(ctx)
+		if nerr != nil {
+			if !errors.Is(nerr, storage.ErrIteratorDone) {
+				return result{status: 9}
+			}
+			if len(heads) > 0 {
+				fail("iterator: Head returned a tuple but the following Next reports the end", map[string]any{"step": step})
+			}
+			if sched != nil && sched.Bool() {
+				if _, herr := it.Head(ctx); !errors.Is(herr, storage.ErrIteratorDone) {
+					fail("iterator: Head after the end does not report ErrIteratorDone", map[string]any{"step": step})
+				}
+			}
+			return res
+		}
+		x := fromProto(t)
+		if headDone > 0 {
+			fail("iterator: Head reported the end but the following Next returned a tuple", map[string]any{"step": step})
+		}
+		for _, hd := range heads {
+			if *hd != x {
+				e.w.Stat("iter_head_mismatch", 1)
+				fail("iterator: Head differs from the following Next (key, condition name or context)",
+					map[string]any{"step": step, "head": fmt.Sprint(*hd), "next": fmt.Sprint(x)})
+				break
+			}
+		}
+		if len(heads) > 0 && x.Ctx != 0 {
+			e.w.Stat("iter_head_then_next_with_context", 1)
+		}
+		res.tuples = append(res.tuples, x)
+	}
 }
 
 func readAllPages(ds storage.OpenFGADatastore, store string, f storage.ReadFilter, pageSize int, cons storage.ConsistencyOptions) result {
@@ -571,6 +673,38 @@ func cons(i int) storage.ConsistencyOptions {
 	return storage.ConsistencyOptions{}
 }
 
+// bigOidSet builds an ObjectIDs set of `size` members: `keep` (stored ids) plus generated ids
+// "!0000".. (sorting below every stored id) and "~0000".. (sorting above the ASCII ones), so that
+// stored ids which are not members lie between Min and Max.  `reduced` is what the oracle gets:
+// the members that are stored object ids, or one non-stored member when there is none
+// (Props/C13.v rswu_object_ids_reduction: only that matters).
+func (e *emitter) bigOidSet(size int, keep []string) oidSet {
+	ids := append([]string{}, keep...)
+	for k := 0; len(ids) < size; k++ {
+		pre := "!"
+		if k%2 == 1 {
+			pre = "~"
+		}
+		ids = append(ids, fmt.Sprintf("%s%04d", pre, k/2))
+	}
+	stored := map[string]bool{}
+	for _, t := range e.h.store {
+		stored[t.OID] = true
+	}
+	var reduced []string
+	for _, id := range ids {
+		if stored[id] {
+			reduced = append(reduced, id)
+		}
+	}
+	if len(reduced) == 0 {
+		reduced = []string{ids[len(ids)-1]}
+	}
+	return oidSet{ids: ids, reduced: reduced, big: true}
+}
+
+// NOTE: corpus entries name a case by (history seed, op, index): new shapes are only ever appended
+// after the existing loops of an op, and the draws of kind-0 histories never change.
 func (e *emitter) enumerate() {
 	u := e.h.u
 	ctx := context.Background()
@@ -590,24 +724,131 @@ func (e *emitter) enumerate() {
 		ufs = append(ufs, ufilter{2, x})
 	}
 
+	readCase := func(o ofilter, rl string, uf ufilter, cl condList) {
+		f := storage.ReadFilter{Object: o.str(), Relation: rl, User: uf.str(), Conditions: cl.slice()}
+		fv := rec.L(o.enc(), rec.S(rl), uf.enc(), cl.enc())
+		if i, ok := e.wanted("read"); ok {
+			itm, errm := e.b.mem.Read(ctx, e.h.id, f, storage.ReadOptions{Consistency: cons(i)})
+			rm := e.consume("memory", "read", i, itm, errm)
+			its, errs := e.b.sql.Read(ctx, e.h.id, f, storage.ReadOptions{Consistency: cons(i)})
+			rs := e.consume("sqlite", "read", i, its, errs)
+			e.emit("read", i, 1, false, nil, fv, rm, rs)
+		}
+		if i, ok := e.wanted("readpage"); ok {
+			ps := []int{1, 2, 3, 50}[i%4]
+			rm := readAllPages(e.b.mem, e.h.id, f, ps, cons(i))
+			rs := readAllPages(e.b.sql, e.h.id, f, ps, cons(i))
+			e.emit("readpage", i, 2, false, map[string]any{"page_size": ps}, rec.L(o.enc(), rec.S(rl), uf.enc(), cl.enc(), rec.I(ps)), rm, rs)
+		}
+	}
+	userTupleCase := func(ob [2]string, rl string, x usr, cl condList) {
+		i, ok := e.wanted("usertuple")
+		if !ok {
+			return
+		}
+		f := storage.ReadUserTupleFilter{Object: ob[0] + ":" + ob[1], Relation: rl, User: x.String(), Conditions: cl.slice()}
+		one := func(ds storage.OpenFGADatastore) result {
+			t, err := ds.ReadUserTuple(ctx, e.h.id, f, storage.ReadUserTupleOptions{Consistency: cons(i)})
+			if err != nil {
+				if errors.Is(err, storage.ErrNotFound) {
+					return result{status: 1}
+				}
+				return result{status: 9}
+			}
+			return result{tuples: []tup{fromProto(t)}}
+		}
+		fv := rec.L(rec.S(ob[0]), rec.S(ob[1]), rec.S(rl), rec.S(x.T), rec.S(x.ID), rec.S(x.R), cl.enc())
+		e.emit("usertuple", i, 3, rl == "", nil, fv, one(e.b.mem), one(e.b.sql))
+	}
+	usersetsCase := func(o ofilter, rl string, rlst restrList, cl condList) {
+		i, ok := e.wanted("usersets")
+		if !ok {
+			return
+		}
+		var refs []*openfgav1.RelationReference
+		if !rlst.isNil {
+			refs = []*openfgav1.RelationReference{}
+		}
+		oc := false
+		rvs := make([]rec.V, 0, len(rlst.rs))
+		for _, x := range rlst.rs {
+			refs = append(refs, x.proto())
+			rvs = append(rvs, x.enc())
+			if x.kind == 2 {
+				oc = true
+			}
+		}
+		f := storage.ReadUsersetTuplesFilter{Object: o.str(), Relation: rl, AllowedUserTypeRestrictions: refs, Conditions: cl.slice()}
+		nilv := 0
+		if rlst.isNil {
+			nilv = 1
+		}
+		fv := rec.L(o.enc(), rec.S(rl), rec.L(rec.I(nilv), rec.L(rvs...)), cl.enc())
+		itm, errm := e.b.mem.ReadUsersetTuples(ctx, e.h.id, f, storage.ReadUsersetTuplesOptions{Consistency: cons(i)})
+		rm := e.consume("memory", "usersets", i, itm, errm)
+		its, errs := e.b.sql.ReadUsersetTuples(ctx, e.h.id, f, storage.ReadUsersetTuplesOptions{Consistency: cons(i)})
+		rs := e.consume("sqlite", "usersets", i, its, errs)
+		e.emit("usersets", i, 4, oc, nil, fv, rm, rs)
+	}
+	rswuCase := func(ot, rl string, ul []usr, os oidSet, cl condList) {
+		i, ok := e.wanted("rswu")
+		if !ok {
+			return
+		}
+		var ufl []*openfgav1.ObjectRelation
+		uvs := make([]rec.V, 0, len(ul))
+		for _, x := range ul {
+			ufl = append(ufl, &openfgav1.ObjectRelation{Object: x.obj(), Relation: x.R})
+			uvs = append(uvs, rec.L(rec.S(x.T), rec.S(x.ID), rec.S(x.R)))
+		}
+		f := storage.ReadStartingWithUserFilter{ObjectType: ot, Relation: rl, UserFilter: ufl, Conditions: cl.slice()}
+		ov := rec.L(rec.I(0))
+		extra := map[string]any{}
+		if !os.isNil {
+			set := storage.NewSortedSet()
+			for _, id := range os.ids {
+				set.Add(id)
+			}
+			f.ObjectIDs = set
+			if os.big {
+				ov = rec.L(rec.I(1), rec.LS(os.reduced), rec.I(len(os.ids)))
+				extra["object_ids_size"] = len(os.ids)
+				e.w.Stat("rswu_big_object_ids", 1)
+			} else {
+				ov = rec.L(rec.I(1), rec.LS(os.ids))
+			}
+		}
+		sorted := i%2 == 0
+		extra["sorted"] = sorted
+		opts := storage.ReadStartingWithUserOptions{Consistency: cons(i), WithResultsSortedAscending: sorted}
+		run := func(name string, ds storage.OpenFGADatastore) result {
+			it, err := ds.ReadStartingWithUser(ctx, e.h.id, f, opts)
+			res := e.consume(name, "rswu", i, it, err)
+			if sorted {
+				for j := 1; j < len(res.tuples); j++ {
+					if res.tuples[j-1].OID > res.tuples[j].OID {
+						e.w.PropFail("ReadStartingWithUser with WithResultsSortedAscending is not sorted by object id ("+name+")", e.desc("rswu", i))
+						break
+					}
+				}
+			}
+			return res
+		}
+		fv := rec.L(rec.S(ot), rec.S(rl), rec.L(uvs...), ov, cl.enc())
+		rm := run("memory", e.b.mem)
+		rs := run("sqlite", e.b.sql)
+		if os.big && (len(rm.tuples) > 0 || len(rs.tuples) > 0) {
+			e.w.Stat("rswu_big_object_ids_nonempty", 1)
+		}
+		e.emit("rswu", i, 5, false, extra, fv, rm, rs)
+	}
+
 	// Read and ReadPage (all pages)
 	for _, o := range ofs {
 		for _, rl := range rels {
 			for _, uf := range ufs {
 				for _, cl := range condLists {
-					f := storage.ReadFilter{Object: o.str(), Relation: rl, User: uf.str(), Conditions: cl.slice()}
-					fv := rec.L(o.enc(), rec.S(rl), uf.enc(), cl.enc())
-					if i, ok := e.wanted("read"); ok {
-						rm := drain(e.b.mem.Read(ctx, e.h.id, f, storage.ReadOptions{Consistency: cons(i)}))
-						rs := drain(e.b.sql.Read(ctx, e.h.id, f, storage.ReadOptions{Consistency: cons(i)}))
-						e.emit("read", i, 1, false, nil, fv, rm, rs)
-					}
-					if i, ok := e.wanted("readpage"); ok {
-						ps := []int{1, 2, 3, 50}[i%4]
-						rm := readAllPages(e.b.mem, e.h.id, f, ps, cons(i))
-						rs := readAllPages(e.b.sql, e.h.id, f, ps, cons(i))
-						e.emit("readpage", i, 2, false, map[string]any{"page_size": ps}, rec.L(o.enc(), rec.S(rl), uf.enc(), cl.enc(), rec.I(ps)), rm, rs)
-					}
+					readCase(o, rl, uf, cl)
 				}
 			}
 		}
@@ -619,23 +860,7 @@ func (e *emitter) enumerate() {
 		for _, rl := range rels {
 			for _, x := range exact {
 				for _, cl := range condLists {
-					i, ok := e.wanted("usertuple")
-					if !ok {
-						continue
-					}
-					f := storage.ReadUserTupleFilter{Object: ob[0] + ":" + ob[1], Relation: rl, User: x.String(), Conditions: cl.slice()}
-					one := func(ds storage.OpenFGADatastore) result {
-						t, err := ds.ReadUserTuple(ctx, e.h.id, f, storage.ReadUserTupleOptions{Consistency: cons(i)})
-						if err != nil {
-							if errors.Is(err, storage.ErrNotFound) {
-								return result{status: 1}
-							}
-							return result{status: 9}
-						}
-						return result{tuples: []tup{fromProto(t)}}
-					}
-					fv := rec.L(rec.S(ob[0]), rec.S(ob[1]), rec.S(rl), rec.S(x.T), rec.S(x.ID), rec.S(x.R), cl.enc())
-					e.emit("usertuple", i, 3, rl == "", nil, fv, one(e.b.mem), one(e.b.sql))
+					userTupleCase(ob, rl, x, cl)
 				}
 			}
 		}
@@ -662,32 +887,7 @@ func (e *emitter) enumerate() {
 		for _, rl := range rels {
 			for _, rlst := range rlists {
 				for _, cl := range condLists {
-					i, ok := e.wanted("usersets")
-					if !ok {
-						continue
-					}
-					var refs []*openfgav1.RelationReference
-					if !rlst.isNil {
-						refs = []*openfgav1.RelationReference{}
-					}
-					oc := false
-					rvs := make([]rec.V, 0, len(rlst.rs))
-					for _, x := range rlst.rs {
-						refs = append(refs, x.proto())
-						rvs = append(rvs, x.enc())
-						if x.kind == 2 {
-							oc = true
-						}
-					}
-					f := storage.ReadUsersetTuplesFilter{Object: o.str(), Relation: rl, AllowedUserTypeRestrictions: refs, Conditions: cl.slice()}
-					nilv := 0
-					if rlst.isNil {
-						nilv = 1
-					}
-					fv := rec.L(o.enc(), rec.S(rl), rec.L(rec.I(nilv), rec.L(rvs...)), cl.enc())
-					rm := drain(e.b.mem.ReadUsersetTuples(ctx, e.h.id, f, storage.ReadUsersetTuplesOptions{Consistency: cons(i)}))
-					rs := drain(e.b.sql.ReadUsersetTuples(ctx, e.h.id, f, storage.ReadUsersetTuplesOptions{Consistency: cons(i)}))
-					e.emit("usersets", i, 4, oc, nil, fv, rm, rs)
+					usersetsCase(o, rl, rlst, cl)
 				}
 			}
 		}
@@ -709,43 +909,89 @@ func (e *emitter) enumerate() {
 			for _, ul := range ulists {
 				for _, os := range oidSets {
 					for _, cl := range condLists {
-						i, ok := e.wanted("rswu")
-						if !ok {
-							continue
-						}
-						var ufl []*openfgav1.ObjectRelation
-						uvs := make([]rec.V, 0, len(ul))
-						for _, x := range ul {
-							ufl = append(ufl, &openfgav1.ObjectRelation{Object: x.T + ":" + x.ID, Relation: x.R})
-							uvs = append(uvs, rec.L(rec.S(x.T), rec.S(x.ID), rec.S(x.R)))
-						}
-						f := storage.ReadStartingWithUserFilter{ObjectType: ot, Relation: rl, UserFilter: ufl, Conditions: cl.slice()}
-						ov := rec.L(rec.I(0))
-						if !os.isNil {
-							set := storage.NewSortedSet()
-							for _, id := range os.ids {
-								set.Add(id)
-							}
-							f.ObjectIDs = set
-							ov = rec.L(rec.I(1), rec.LS(os.ids))
-						}
-						sorted := i%2 == 0
-						opts := storage.ReadStartingWithUserOptions{Consistency: cons(i), WithResultsSortedAscending: sorted}
-						run := func(name string, ds storage.OpenFGADatastore) result {
-							res := drain(ds.ReadStartingWithUser(ctx, e.h.id, f, opts))
-							if sorted {
-								for j := 1; j < len(res.tuples); j++ {
-									if res.tuples[j-1].OID > res.tuples[j].OID {
-										e.w.PropFail("ReadStartingWithUser with WithResultsSortedAscending is not sorted by object id ("+name+")",
-											map[string]any{"h": e.hseed, "plain": e.plain, "op": "rswu", "i": i})
-										break
-									}
-								}
-							}
-							return res
-						}
-						fv := rec.L(rec.S(ot), rec.S(rl), rec.L(uvs...), ov, cl.enc())
-						e.emit("rswu", i, 5, false, map[string]any{"sorted": sorted}, fv, run("memory", e.b.mem), run("sqlite", e.b.sql))
+						rswuCase(ot, rl, ul, os, cl)
+					}
+				}
+			}
+		}
+	}
+
+	// ---- appended shapes (indices continue after the loops above) -----------------------------
+
+	// large ObjectIDs sets around typical thresholds, with gaps: stored ids that are not members
+	// sort between Min and Max
+	allUsers := [][]usr{{us[0], us[1], us[2], us[3], us[6], us[9]}, {us[4], us[5], us[7], us[8], us[10], us[11]}}
+	if e.kind == 1 {
+		allUsers[0] = append(allUsers[0], us[12], us[14], us[17])
+		allUsers[1] = append(allUsers[1], us[13], us[15], us[16], us[18])
+	}
+	keeps := [][]string{{}, {u.oids[0]}, {u.oids[1], u.oids[2]}}
+	for _, size := range []int{99, 100, 101, 255, 256, 257, 300, 1000, 1500} {
+		for _, keep := range keeps {
+			set := e.bigOidSet(size, keep)
+			for _, ot := range u.otypes {
+				for _, rl := range u.rels {
+					for ui, ul := range allUsers {
+						rswuCase(ot, rl, ul, set, condLists[(size+ui+len(keep))%2*2]) // nil or [""]
+					}
+				}
+			}
+		}
+	}
+
+	if e.kind != 1 {
+		return
+	}
+	// prefix-related user types, untyped users (object types, ids, relations and condition names of
+	// this universe are prefix-related already and are covered by the loops above)
+	xufs := []ufilter{
+		{1, usr{T: "user2"}}, {1, usr{T: "use"}}, {1, usr{T: "userset_admin"}}, {1, usr{T: "groupadmin"}}, {1, usr{T: "group"}},
+		{2, us[12]}, {2, us[13]}, {2, us[14]}, {2, us[16]}, {2, us[17]}, {2, us[18]}, {2, us[19]},
+		{2, usr{"user", "a2", ""}}, {2, usr{"", "users", ""}},
+	}
+	for _, o := range []ofilter{ofs[0], ofs[1], ofs[4]} {
+		for _, rl := range []string{"", u.rels[0]} {
+			for _, uf := range xufs {
+				for _, cl := range []condList{condLists[0], condLists[2], condLists[3]} {
+					readCase(o, rl, uf, cl)
+				}
+			}
+		}
+	}
+	for _, ob := range objs[:2] {
+		for _, rl := range u.rels {
+			for _, x := range []usr{us[12], us[13], us[14], us[15], us[17], us[19]} {
+				for _, cl := range []condList{condLists[0], condLists[4]} {
+					userTupleCase(ob, rl, x, cl)
+				}
+			}
+		}
+	}
+	xrlists := []restrList{
+		{rs: []restr{rrel(g, "member"), rrel("groupadmin", "member")}}, {rs: []restr{rrel("groupadmin", "member")}},
+		{rs: []restr{rwild("user2")}}, {rs: []restr{rwild("use")}}, {rs: []restr{rwild("user"), rwild("user2")}},
+		{rs: []restr{rrel("userset_admin", "member")}}, {rs: []restr{rrel("userset", "member"), rrel("groupadmi", "member")}},
+		{rs: []restr{rrel(g, "memb"), rrel(g, "members")}},
+	}
+	for _, o := range []ofilter{ofs[4], ofs[5], ofs[1]} {
+		for _, rl := range []string{"", u.rels[0], u.rels[1]} {
+			for _, rlst := range xrlists {
+				for _, cl := range []condList{condLists[0], condLists[3]} {
+					usersetsCase(o, rl, rlst, cl)
+				}
+			}
+		}
+	}
+	xulists := [][]usr{
+		{us[12]}, {us[0], us[12]}, {us[13]}, {us[2], us[13]}, {us[17]}, {us[18], us[3]}, {us[14], us[15]},
+		{us[16], us[6]}, {us[19]}, {{"user", "a2", ""}, {"", "users", ""}},
+	}
+	for _, ot := range u.otypes {
+		for _, rl := range u.rels {
+			for _, ul := range xulists {
+				for _, os := range []oidSet{oidSets[0], oidSets[3]} {
+					for _, cl := range []condList{condLists[0], condLists[2]} {
+						rswuCase(ot, rl, ul, os, cl)
 					}
 				}
 			}
@@ -755,12 +1001,15 @@ func (e *emitter) enumerate() {
 
 // ---- main -------------------------------------------------------------------------------------
 
-func runOne(w *rec.Writer, b backends, hseed uint64, plain bool, want map[string]bool) {
-	h, ok := runHistory(w, b, hseed, plain)
+func runOne(w *rec.Writer, b backends, hseed uint64, plain bool, kind int, want map[string]bool) {
+	h, ok := runHistory(w, b, hseed, plain, kind)
 	if !ok {
 		return
 	}
 	w.Stat("histories", 1)
+	if kind == 1 {
+		w.Stat("histories_prefix_related_names", 1)
+	}
 	w.Stat("stored_tuples", len(h.store))
 	for _, t := range h.store {
 		if t.U.R != "" {
@@ -771,12 +1020,18 @@ func runOne(w *rec.Writer, b backends, hseed uint64, plain bool, want map[string
 		if t.Cond != "" {
 			w.Stat("stored_conditioned", 1)
 		}
+		if t.Ctx != 0 && t.Cond != "" {
+			w.Stat("stored_with_context", 1)
+		}
+		if t.U.T == "" {
+			w.Stat("stored_untyped_users", 1)
+		}
 	}
 	sv := make([]rec.V, len(h.store))
 	for i, t := range h.store {
 		sv[i] = t.enc()
 	}
-	e := &emitter{w: w, b: b, h: h, hseed: hseed, plain: plain, want: want, storeV: rec.L(sv...), idx: map[string]int{}}
+	e := &emitter{w: w, b: b, h: h, hseed: hseed, plain: plain, kind: kind, want: want, storeV: rec.L(sv...), idx: map[string]int{}}
 	e.enumerate()
 }
 
@@ -805,6 +1060,7 @@ func main() {
 		type d struct {
 			H     uint64 `json:"h"`
 			Plain bool   `json:"plain"`
+			U     int    `json:"u"`
 			Op    string `json:"op"`
 			I     int    `json:"i"`
 		}
@@ -816,6 +1072,7 @@ func main() {
 		type hk struct {
 			h     uint64
 			plain bool
+			kind  int
 		}
 		wants := map[hk]map[string]bool{}
 		var order []hk
@@ -830,7 +1087,7 @@ func main() {
 			if json.Unmarshal([]byte(line), &x) != nil || x.H == 0 {
 				continue
 			}
-			k := hk{x.H, x.Plain}
+			k := hk{x.H, x.Plain, x.U}
 			if wants[k] == nil {
 				wants[k] = map[string]bool{}
 				order = append(order, k)
@@ -840,7 +1097,7 @@ func main() {
 			}
 		}
 		for _, k := range order {
-			runOne(w, b, k.h, k.plain, wants[k])
+			runOne(w, b, k.h, k.plain, k.kind, wants[k])
 		}
 		return
 	}
@@ -848,6 +1105,11 @@ func main() {
 	r := rec.NewRand(o.Seed)
 	for i := 0; i < o.N; i++ {
 		hseed := r.Uint64()
-		runOne(w, b, hseed, i%3 == 0, nil)
+		// i%3: 0 plain names, 1 prefix-related names (kind 1), 2 names drawn from the pools
+		kind := 0
+		if i%3 == 1 {
+			kind = 1
+		}
+		runOne(w, b, hseed, i%3 == 0, kind, nil)
 	}
 }
